@@ -9,18 +9,191 @@ def Visible (s : St) (p : Nat) : Prop := (s p).present = true ∧ (s p).written 
 /-- the ids a commit's trace may touch -/
 def commitIds (files : List W) (hint : W) : List Nat := (files ++ [hint]).flatMap fun w => [w.tmp, w.fin]
 
-/-- before the pointer's rename (the first `4 * files.length + … ` events: every prefix that does not include the hint's
-rename) the pointer path is exactly as before, and paths the commit does not own are never touched in their visibility -/
-theorem crash_pre' (files : List W) (hint : W) (s : St) (hwf : WfCommit files hint s) (k : Nat)
+/-- the event names no id equal to `p` (only a directory fsync can reach `p`) -/
+def Foreign (p : Nat) : Ev → Prop
+  | .creat q _ => q ≠ p
+  | .write q => q ≠ p
+  | .fsync q => q ≠ p
+  | .rename src dst => src ≠ p ∧ dst ≠ p
+  | .fsyncDir _ => True
+  | .unlink q => q ≠ p
+
+/-- `a` is `b` except that its directory entry may have become durable -/
+def SameUpToEntry (a b : PathSt) : Prop :=
+  a.present = b.present ∧ a.written = b.written ∧ a.contentDurable = b.contentDurable ∧ a.dir = b.dir ∧
+    (b.entryDurable = true → a.entryDurable = true)
+
+theorem SameUpToEntry.refl (a : PathSt) : SameUpToEntry a a := ⟨rfl, rfl, rfl, rfl, id⟩
+
+theorem SameUpToEntry.trans {a b c : PathSt} (h1 : SameUpToEntry a b) (h2 : SameUpToEntry b c) : SameUpToEntry a c :=
+  ⟨h1.1.trans h2.1, h1.2.1.trans h2.2.1, h1.2.2.1.trans h2.2.2.1, h1.2.2.2.1.trans h2.2.2.2.1,
+    fun h => h1.2.2.2.2 (h2.2.2.2.2 h)⟩
+
+theorem foreign_apply (s : St) (p : Nat) (e : Ev) (hu : Foreign p e) : SameUpToEntry (apply s e p) (s p) := by
+  cases e with
+  | creat q d => simp [Foreign] at hu; simp [apply, set, Ne.symm hu, SameUpToEntry.refl]
+  | write q => simp [Foreign] at hu; simp [apply, set, Ne.symm hu, SameUpToEntry.refl]
+  | fsync q => simp [Foreign] at hu; simp [apply, set, Ne.symm hu, SameUpToEntry.refl]
+  | rename a b =>
+      simp [Foreign] at hu
+      simp [apply, set, Ne.symm hu.1, Ne.symm hu.2, SameUpToEntry.refl]
+  | fsyncDir d =>
+      simp only [apply]
+      split <;> simp [SameUpToEntry]
+  | unlink q => simp [Foreign] at hu; simp [apply, set, Ne.symm hu, SameUpToEntry.refl]
+
+theorem run_foreign (p : Nat) : ∀ (evs : List Ev) (s : St), (∀ e ∈ evs, Foreign p e) →
+    SameUpToEntry (run s evs p) (s p) := by
+  intro evs
+  induction evs with
+  | nil => intro s _; exact SameUpToEntry.refl _
+  | cons e rest ih =>
+    intro s h
+    rw [run_cons]
+    exact (ih _ (fun e' he' => h e' (List.mem_cons_of_mem _ he'))).trans
+      (foreign_apply s p e (h e List.mem_cons_self))
+
+theorem lowerWrite_foreign (t p d q : Nat) (ht : t ≠ q) (hp : p ≠ q) : ∀ e ∈ lowerWrite t p d, Foreign q e := by
+  intro e he
+  simp [lowerWrite] at he
+  rcases he with rfl | rfl | rfl | rfl | rfl <;> simp [Foreign, ht, hp]
+
+theorem lowerWrite_take3_foreign (t p d : Nat) (ht : t ≠ p) : ∀ e ∈ (lowerWrite t p d).take 3, Foreign p e := by
+  intro e he
+  simp [lowerWrite] at he
+  rcases he with rfl | rfl | rfl <;> simp [Foreign, ht]
+
+theorem commitTrace_eq (files : List W) (hint : W) :
+    commitTrace files hint = (files ++ [hint]).flatMap (fun w => lowerWrite w.tmp w.fin w.dir) := by
+  simp [commitTrace, List.flatMap_append]
+
+theorem files_length (files : List W) :
+    (files.flatMap (fun w => lowerWrite w.tmp w.fin w.dir)).length = 5 * files.length := by
+  induction files with
+  | nil => rfl
+  | cons a rest ih =>
+    rw [List.flatMap_cons, List.length_append, ih]
+    simp [lowerWrite]
+    omega
+
+theorem commitTrace_take (files : List W) (hint : W) (k : Nat) :
+    (commitTrace files hint).take k =
+      (files.flatMap (fun w => lowerWrite w.tmp w.fin w.dir)).take k ++
+        (lowerWrite hint.tmp hint.fin hint.dir).take (k - 5 * files.length) := by
+  rw [commitTrace, List.take_append, files_length]
+
+/-- PROVABLE form of `crash_pre'`: before the pointer's rename the pointer path keeps `present`, `written`,
+`contentDurable` and `dir`, and its `entryDurable` can only go from false to true (a directory fsync of another file's
+lowering persists the OLD entry when it is visible and lives in that directory). -/
+theorem crash_pre_fields' (files : List W) (hint : W) (s : St) (hwf : WfCommit files hint s) (k : Nat)
     (hk : k ≤ 5 * files.length + 3) :
-    run s ((commitTrace files hint).take k) hint.fin = s hint.fin := by sorry
+    SameUpToEntry (run s ((commitTrace files hint).take k) hint.fin) (s hint.fin) := by
+  obtain ⟨hfin, _, hdis, _⟩ := hwf
+  have hfin' : (files ++ [hint]).Pairwise (fun a b => a.fin ≠ b.fin) := by
+    have := hfin
+    unfold List.Nodup at this
+    rw [List.pairwise_map] at this
+    exact this
+  rw [List.pairwise_append] at hfin'
+  obtain ⟨_, _, hfinH⟩ := hfin'
+  have hmemF : ∀ w ∈ files, w ∈ files ++ [hint] := fun w hw => List.mem_append_left _ hw
+  have hmemH : hint ∈ files ++ [hint] := List.mem_append_right _ (List.mem_singleton.2 rfl)
+  apply run_foreign
+  intro e he
+  rw [commitTrace_take] at he
+  rcases List.mem_append.1 he with he | he
+  · obtain ⟨w, hw, hew⟩ := List.mem_flatMap.1 (List.mem_of_mem_take he)
+    exact lowerWrite_foreign w.tmp w.fin w.dir hint.fin (hdis w (hmemF w hw) hint hmemH)
+      (hfinH w hw hint (List.mem_singleton.2 rfl)) e hew
+  · have hmin : k - 5 * files.length = min (k - 5 * files.length) 3 := by omega
+    rw [hmin, ← List.take_take] at he
+    exact lowerWrite_take3_foreign hint.tmp hint.fin hint.dir (hdis hint hmemH hint hmemH) e
+      (List.mem_of_mem_take he)
+
+/-- full equality does hold when the old pointer entry is already durable (it cannot be newly persisted) -/
+theorem crash_pre_eq_of' (files : List W) (hint : W) (s : St) (hwf : WfCommit files hint s) (k : Nat)
+    (hk : k ≤ 5 * files.length + 3) (h0 : (s hint.fin).entryDurable = true) :
+    run s ((commitTrace files hint).take k) hint.fin = s hint.fin := by
+  obtain ⟨h1, h2, h3, h4, h5⟩ := crash_pre_fields' files hint s hwf k hk
+  have h5' := h5 h0
+  generalize run s ((commitTrace files hint).take k) hint.fin = a at *
+  generalize s hint.fin = b at *
+  cases a; cases b
+  simp_all
+
+/-- COUNTEREXAMPLE to `crash_pre'` as stated (full `PathSt` equality): one file and the pointer in the same directory 0,
+the old pointer visible but its entry not yet durable; the file's `fsyncDir 0` (5th event, 5 ≤ 5*1+3) makes the OLD pointer
+entry durable, so `entryDurable` flips false → true. -/
+theorem crash_pre_counterexample :
+    ¬ (∀ (files : List W) (hint : W) (s : St), WfCommit files hint s → ∀ k, k ≤ 5 * files.length + 3 →
+        run s ((commitTrace files hint).take k) hint.fin = s hint.fin) := by
+  intro h
+  have := h [⟨11, 1, 0⟩] ⟨19, 9, 0⟩ (fun p => ⟨p == 9, p == 9, false, false, 0⟩)
+    ⟨by decide, by decide, by decide, by decide⟩ 5 (by decide)
+  revert this
+  decide
+
+
 
 theorem crash_foreign_untouched' (files : List W) (hint : W) (s : St) (k : Nat) (p : Nat) (hp : p ∉ commitIds files hint) :
     (run s ((commitTrace files hint).take k) p).present = (s p).present ∧
-    (run s ((commitTrace files hint).take k) p).written = (s p).written := by sorry
+    (run s ((commitTrace files hint).take k) p).written = (s p).written := by
+  have h : SameUpToEntry (run s ((commitTrace files hint).take k) p) (s p) := by
+    apply run_foreign
+    intro e he
+    have he' := List.mem_of_mem_take he
+    rw [commitTrace_eq] at he'
+    obtain ⟨w, hw, hew⟩ := List.mem_flatMap.1 he'
+    have hid : ∀ x ∈ [w.tmp, w.fin], x ≠ p := by
+      intro x hx hxp
+      apply hp
+      rw [← hxp]
+      exact List.mem_flatMap.2 ⟨w, hw, hx⟩
+    exact lowerWrite_foreign w.tmp w.fin w.dir p (hid _ (by simp)) (hid _ (by simp)) e hew
+  exact ⟨h.1, h.2.1⟩
+
+/-- from its rename on, the target of one atomic write is visible with full content -/
+theorem lowerWrite_visible (s : St) (t p d : Nat) (h : t ≠ p) (j : Nat) :
+    Visible (run s ((lowerWrite t p d).take (j + 4))) p := by
+  have h' : p ≠ t := Ne.symm h
+  have h4 : Visible (run s ((lowerWrite t p d).take 4)) p := by
+    simp [lowerWrite, run, apply, set, Visible, h']
+  cases j with
+  | zero => exact h4
+  | succ j' =>
+    have : (lowerWrite t p d).take (j' + 1 + 4) = (lowerWrite t p d).take 4 ++ [.fsyncDir d] := by
+      simp [lowerWrite]
+    rw [this, run_append]
+    have hs := run_foreign p [.fsyncDir d] (run s ((lowerWrite t p d).take 4))
+      (by intro e he; rw [List.mem_singleton.1 he]; trivial)
+    exact ⟨hs.1.trans h4.1, hs.2.1.trans h4.2⟩
 
 /-- from the pointer's rename on, every file of the commit is visible with full content (so the post-state is readable) -/
 theorem crash_post' (files : List W) (hint : W) (s : St) (hwf : WfCommit files hint s) (k : Nat)
-    (hk : 5 * files.length + 4 ≤ k) : ∀ w ∈ files ++ [hint], Visible (run s ((commitTrace files hint).take k)) w.fin := by sorry
+    (hk : 5 * files.length + 4 ≤ k) : ∀ w ∈ files ++ [hint], Visible (run s ((commitTrace files hint).take k)) w.fin := by
+  obtain ⟨hfin, _, hdis, hdirs⟩ := hwf
+  have hfin' : (files ++ [hint]).Pairwise (fun a b => a.fin ≠ b.fin) := by
+    have := hfin
+    unfold List.Nodup at this
+    rw [List.pairwise_map] at this
+    exact this
+  rw [List.pairwise_append] at hfin'
+  obtain ⟨hfinF, _, hfinH⟩ := hfin'
+  have hmemF : ∀ w ∈ files, w ∈ files ++ [hint] := fun w hw => List.mem_append_left _ hw
+  have hmemH : hint ∈ files ++ [hint] := List.mem_append_right _ (List.mem_singleton.2 rfl)
+  have hth : hint.tmp ≠ hint.fin := hdis hint hmemH hint hmemH
+  intro w hw
+  rw [commitTrace_take, List.take_of_length_le (by rw [files_length]; omega), run_append]
+  obtain ⟨j, hj⟩ : ∃ j, k - 5 * files.length = j + 4 := ⟨k - 5 * files.length - 4, by omega⟩
+  rw [hj]
+  rcases List.mem_append.1 hw with hw | hw
+  · have hd := files_durable files s (fun a ha b hb => hdis a (hmemF a ha) b (hmemF b hb)) hfinF
+      (fun w hw => hdirs w (hmemF w hw)) w hw
+    have := run_durable_stable w.fin ((lowerWrite hint.tmp hint.fin hint.dir).take (j + 4)) _
+      (fun e he => lowerWrite_untouched hint.tmp hint.fin hint.dir w.fin (hdis hint hmemH w (hmemF w hw))
+        (Ne.symm (hfinH w hw hint (List.mem_singleton.2 rfl))) e (List.mem_of_mem_take he)) hd
+    exact ⟨this.1, this.2.1⟩
+  · rw [List.mem_singleton.1 hw]
+    exact lowerWrite_visible _ hint.tmp hint.fin hint.dir hth j
 
 end DSV.Fs
